@@ -62,6 +62,54 @@ RESP:
 	return fmt.Sprintf("a=%s r=%s closed=%s%s", j(as), j(rs), ca, cr)
 }
 
+// c07QueryRace: cnt goroutines call Serf.Query at the same moment (40 ms timeout).  Every call must get its own
+// Lamport time (responses are routed by it), and once the timeouts are over every query's streams must be closed.
+func c07QueryRace(n *qnode, cnt int) string {
+	resps := make([]*serf.QueryResponse, cnt)
+	var wg sync.WaitGroup
+	start := make(chan struct{})
+	for i := 0; i < cnt; i++ {
+		wg.Add(1)
+		go func(i int) {
+			defer wg.Done()
+			<-start
+			r, err := n.s.Query("qr", nil, &serf.QueryParam{Timeout: 40 * time.Millisecond})
+			if err == nil {
+				resps[i] = r
+			}
+		}(i)
+	}
+	close(start)
+	wg.Wait()
+	seen := map[serf.LamportTime]bool{}
+	for _, r := range resps {
+		if r == nil {
+			return "query-error"
+		}
+		lt, _ := serf.VerifQueryIdent(r)
+		if seen[lt] {
+			return "shared-time:" + strconv.FormatUint(uint64(lt), 10)
+		}
+		seen[lt] = true
+	}
+	t0 := time.Now()
+	for {
+		open := 0
+		for _, r := range resps {
+			if !serf.VerifQueryClosed(r) {
+				open++
+			}
+		}
+		if open == 0 {
+			return "ok"
+		}
+		if time.Since(t0) > 3*time.Second {
+			return "unclosed:" + strconv.Itoa(open)
+		}
+		time.Sleep(5 * time.Millisecond)
+	}
+}
+
 // c07Race: free-running, 8 independent workers.  Per round a fresh query (acks requested, roomy channels) is registered through the
 // real registerQueryResponse; one goroutine delivers acks and responses of distinct senders the way the
 // memberlist packet handler does (Delegate.NotifyMsg, messages encoded beforehand), another
@@ -220,6 +268,13 @@ func c07ExecOnce(ops []string) (outs []string, premature bool) {
 			lt, id := serf.VerifQueryIdent(objs[i].resp)
 			n.msg(serf.VerifEncodeQueryResponse(lt, id, string(from), f[3] == "1", []byte(f[4])))
 			outs = append(outs, "ok")
+		case len(f) == 2 && f[0] == "qrace":
+			cnt, err := strconv.Atoi(f[1])
+			if err != nil || cnt < 0 || cnt > 4096 {
+				outs = append(outs, "bad-op")
+				continue
+			}
+			outs = append(outs, c07QueryRace(n, cnt))
 		case len(f) == 2 && f[0] == "race":
 			rounds, err := strconv.Atoi(f[1])
 			if err != nil || rounds < 0 || rounds > 1000000 {
@@ -411,6 +466,15 @@ func c07Gen(rng *rand.Rand, tier string) []Case {
 		raceRounds = 80000
 	}
 	out = append(out, Case{ID: "race", Ops: []string{fmt.Sprintf("race %d", raceRounds)}, Nontrivial: true, Tags: []string{"race"}})
+	qr := 3
+	if tier == "thorough" {
+		qr = 30
+	}
+	for i := 0; i < qr; i++ {
+		// concurrent Query calls around sequential ones: the model predicts every sequential call's Lamport time
+		out = append(out, Case{ID: fmt.Sprintf("qrace%d", i), Ops: []string{"query 0", "qrace 64", "query 1", "qrace 200", "query 0", "drain 0", "drain 1", "drain 2"},
+			Nontrivial: true, Tags: []string{"query-race"}})
+	}
 	return out
 }
 
@@ -419,7 +483,7 @@ func init() {
 		ID: "C07",
 		Rule: "each case = one real node; 1–5 concurrently open queries registered through the real newQueryResponse/registerQueryResponse (Lamport times from {5,6,7} so that times are shared and map entries overwritten; ids from 3 values; with/without acks; channel capacity 1–3; deadline far or already over) or through the real s.Query; " +
 			"6–30 steps: replies injected through NotifyMsg (matching, wrong id, wrong time, duplicates, acks to queries without acks, 5 sender names incl. empty), closes (body of the timer closure, also repeated), drains of AckCh/ResponseCh; real-timer cases let 120 ms timers fire and send replies afterwards; " +
-			"non-trivial = the case has a duplicate, a mismatching id/time and a reply after a close/deadline; distinct = distinct op sequence. one free-running race case: 8000 (thorough 80000) rounds over 8 concurrently open queries, each with reply delivery by one goroutine against the public Close() from another (stops at the first send on a closed stream, 20 s cap). Interleavings of the timer with the individual steps of handleQueryResponse are not driven on the real code (theorems only)",
+			"non-trivial = the case has a duplicate, a mismatching id/time and a reply after a close/deadline; distinct = distinct op sequence. query-race cases: 64 and 200 goroutines call Serf.Query at once between sequential calls whose Lamport time the model predicts (distinct times, all streams closed after the 40 ms timeouts); one free-running race case: 8000 (thorough 80000) rounds over 8 concurrently open queries, each with reply delivery by one goroutine against the public Close() from another (stops at the first send on a closed stream, 20 s cap). Interleavings of the timer with the individual steps of handleQueryResponse are not driven on the real code (theorems only)",
 		Gen:  c07Gen,
 		Exec: c07Exec,
 	})
